@@ -13,7 +13,7 @@
    check); encoding/json and encoding/csv are modelled on the alphabet the analysis produces. *)
 From Coq Require Import List ZArith Bool String Permutation.
 From NP Require Import IntervalSet ConnSet ConnSetProofs World Build Connlist Diff Format SortGeneric FormatProofs DotProofs DiffDot DiffDotProofs XFormat XFormatProofs StrInj ConnInj RowInj
-     Eval EvalProofs PartitionTiles ModelPrintable DiffInj.
+     Eval EvalProofs PartitionTiles ModelPrintable DiffInj DiffTxtInj XDot XDotProofs.
 Import ListNotations.
 
 Theorem C09_rows_are_exactly_the_entries es : Permutation (rowsort (map row_of es)) (map row_of es).
@@ -57,6 +57,12 @@ Theorem C09_exposure_lines_are_exactly_the_entries es xps ingress :
   Permutation (rowsort (flat_map (xgress_rows es ingress) xps)) (flat_map (xgress_rows es ingress) xps).
 Proof. exact (exposure_rows_are_the_entries es xps ingress). Qed.
 Print Assumptions C09_exposure_lines_are_exactly_the_entries.
+
+(* list --exposure, dot (byte-exact model Model/XDot.v): the edges are exactly the connections, the exposure entries and the
+   unprotected directions, each once *)
+Theorem C09_exposure_dot_edges_are_exactly_the_entries es xps : Permutation (strsort (x_all_edges es xps)) (x_all_edges es xps).
+Proof. exact (exposure_dot_edges_are_the_entries es xps). Qed.
+Print Assumptions C09_exposure_dot_edges_are_exactly_the_entries.
 
 (* ---- the rendering is injective ---- *)
 
@@ -136,6 +142,14 @@ Theorem C09_diff_md_determines_the_diff d d' :
   Permutation (filter changedb d) (filter changedb d').
 Proof. exact (diff_md_inj d d'). Qed.
 Print Assumptions C09_diff_md_determines_the_diff.
+
+(* ... and so does the txt output, the default format: its fields are separated by ", " and a printed connection holds
+   commas, but none followed by a blank *)
+Theorem C09_diff_txt_determines_the_diff d d' :
+  Forall dentry_ok d -> Forall dentry_ok d' -> diff_txt d = diff_txt d' ->
+  Permutation (filter changedb d) (filter changedb d').
+Proof. exact (diff_txt_inj d d'). Qed.
+Print Assumptions C09_diff_txt_determines_the_diff.
 
 Theorem C09_diff_row_determines_the_entry e e' : dentry_ok e -> dentry_ok e' -> drow_of e = drow_of e' -> e = e'.
 Proof. exact (drow_of_inj e e'). Qed.
